@@ -10,6 +10,7 @@ every item stream and **every schedule** of the pipeline (all pack boundaries, a
 -/
 import Rustic.Lemmas.Packer
 import Rustic.Lemmas.ArchiveDedup
+import Rustic.Lemmas.PackerDedup
 import Rustic.Props.C06
 namespace Rustic.Props.C07
 open Rustic.Tree Rustic.Parent Rustic.Archive
@@ -210,6 +211,36 @@ theorem tree_and_data_with_equal_id_both_stored (evs : List Ev) (id : Id)
     (BT.tree, id) ∈ keysOf (finalizeAll (runEvs init evs)).packs :=
   ⟨(uploaded_exactly_added evs _ _).mpr hd, (uploaded_exactly_added evs _ _).mpr ht⟩
 
+/-- (6) **De-duplication inside a run survives everything that happens later — in particular the indexer's intermediate
+index-file flushes.**  `Settled s t id`: the blob's pack has been indexed (`(t, id) ∈ Indexer.indexed`, typed set) and no
+further copy of it is pending or in the open pack.  From such a state, for EVERY continuation `evs` (more adds of the same
+blob, any late-filter / flush / write / index interleaving) and through `finalize`, the number of copies of the blob in
+pack files does not change: it is never stored again.  The index-FILE flush of `Indexer::add_with` (`save(); reset()` after
+`MAX_COUNT` blobs or `MAX_AGE`) is not an event of the pipeline state at all: `reset` replaces the file and the counters
+and keeps `Indexer.indexed` (the files are `Store.Ixr`, Props.C01 `indexer_files_list_every_pack`), and no event ever
+removes a key from `indexed` (`indexed_never_shrinks`).  A `reset` that also emptied `indexed` would break exactly this
+(replayed on the real code by `c07 many`: > `MAX_COUNT` blobs in one run with chunks recurring after the flush). -/
+theorem settled_blob_is_never_stored_again (s : PSt) (t : BT) (id : Id) (h : Settled s t id) (evs : List Ev) :
+    (keysOf (finalizeAll (runEvs s evs)).packs).count (t, id) = copies s t id := by
+  obtain ⟨h1, c1⟩ := settled_runEvs evs h
+  obtain ⟨_, c2⟩ := settled_finalizeAll h1
+  have hall := finalizeAll_empty (runEvs s evs) t
+  have hin : ((finalizeAll (runEvs s evs)).pk t).inflight.flatten = [] := by
+    have : ∀ x, x ∉ ((finalizeAll (runEvs s evs)).pk t).inflight.flatten := by
+      intro x hx
+      have : x ∈ ((finalizeAll (runEvs s evs)).pk t).all := by
+        simp only [Pk.all, List.mem_append]; exact Or.inl (Or.inr hx)
+      rw [hall] at this; cases this
+    exact List.eq_nil_iff_forall_not_mem.mpr this
+  rw [← c1, ← c2]
+  simp [copies, hin]
+
+/-- (6') no event of the pipeline removes a key from `Indexer.indexed` -/
+theorem indexed_never_shrinks (s : PSt) (evs : List Ev) (k : Key) (h : k ∈ s.indexed) : k ∈ (runEvs s evs).indexed := by
+  induction evs generalizing s with
+  | nil => exact h
+  | cons ev evs ih => exact ih (step s ev) (indexed_mono s ev k h)
+
 /-! ### Witnesses -/
 
 /-- The code as found (`typed = false`: one `BTreeSet<BlobId>` for both packers) loses the tree: the data
@@ -234,5 +265,14 @@ the `TODO` in `packer.rs`): the statement is about key *sets*. -/
 example : keysOf (finalizeAll (runEvs init
     [.enter .data 1, .commit .data, .flush .data, .enter .data 1, .commit .data])).packs =
     [(.data, 1), (.data, 1)] := by decide
+
+/-- Non-vacuity of (6): blob 1 is packed, written and indexed (`Settled`); it is then added three more times around
+another pack boundary — exactly one copy is stored. -/
+example :
+    let s := runEvs init [.enter .data 1, .commit .data, .flush .data, .write .data, .idx .data]
+    (s.typed = true ∧ (BT.data, 1) ∈ s.indexed ∧ 1 ∉ (s.pk .data).pending ∧ 1 ∉ (s.pk .data).cur) ∧
+    copies s .data 1 = 1 ∧
+    (keysOf (finalizeAll (runEvs s [.enter .data 1, .enter .data 2, .commit .data, .commit .data, .flush .data,
+      .enter .data 1, .commit .data])).packs).count (.data, 1) = 1 := by decide
 
 end Rustic.Props.C07
